@@ -1,12 +1,13 @@
 from .. import facts
 from ..common import Report, finish
-from ..rules import gate, carry, signext
+from ..rules import gate, carry, signext, dbgsize
 
 RULE = ("(a) the `is_some` flag of Int's checked_add / checked_sub / checked_mul / checked_square / checked_neg / checked_div "
         "depends on every operand that decides overflow; (b) inside src/int, the overflow / carry flag returned by "
         "overflowing_add / overflowing_neg / carrying_neg / adc / sbb-family calls is consumed on every path (same rule as C04); "
         "(c) c13.signext: a value cast out of a signed primitive (`iN as uM`) is never widened into a generic-width integer by a "
-        "zero-padding constructor / resize — only by the sign-extending Int::resize")
+        "zero-padding constructor / resize — only by the sign-extending Int::resize; "
+        "(d) c13.dbgsize: the width requirement of a From<primitive> conversion is enforced in release builds, not only by a debug assertion")
 FAMS = {"add", "sub", "mul", "square", "neg", "div", "rem"}
 
 
@@ -19,11 +20,13 @@ def run(tier, t0):
         carry.run(f, rep, cfg, scope_prefix=("int::", "<int::"), table="c04.toml", auto_wrapping=True,
                   counter="carry_returning_calls_in_int", stale_check=False)
         signext.run(f, rep, cfg)
+        dbgsize.run(f, rep, cfg, prefix="c13.dbgsize", counter="primitive_conversions")
     rep.stale = []
     rep.floor("int_checked_operations", 16)
     rep.floor("carry_returning_calls_in_int", 5)
     rep.floor("bodies_with_signed_to_unsigned_casts", 8)
     rep.floor("generic_width_widenings_in_signed_cast_bodies", 4)
+    rep.floor("primitive_conversions", 16)
     return finish(rep, tier, t0,
                   explanation="two structural necessary conditions of C13: a two's-complement overflow report that is "
                               "constant or ignores an operand is wrong for some input, and an overflow flag that is computed "
